@@ -49,7 +49,7 @@ func Index(collection, key cty.Value, srcRange *Range) (cty.Value, Diagnostics) 
 	ty := collection.Type()
 	kty := key.Type()
 	if kty == cty.DynamicPseudoType || ty == cty.DynamicPseudoType {
-		return cty.DynamicVal.WithSameMarks(collection), nil
+		return cty.DynamicVal.WithSameMarks(collection, key), nil
 	}
 
 	switch {
